@@ -57,6 +57,7 @@ type call struct {
 	Method  string
 	Scheme  string
 	Warning string
+	Stale   string // context marks (skip round trip, skip logging, API request) or values already set when the call started
 }
 
 type finding struct{ Sig, Desc string }
@@ -156,6 +157,24 @@ func run(sc scenario) (body func(), check func(r *vrt.Result) []finding) {
 				c.CtxID = c.Ctx.ID()
 				c.Sess = c.Ctx.Session()
 				c.SessID = c.Sess.ID()
+				if kind == "req" {
+					// the context is per exchange: nothing an earlier exchange marked or stored may be on it
+					var st []string
+					if c.Ctx.SkippingRoundTrip() {
+						st = append(st, "skip-round-trip")
+					}
+					if c.Ctx.SkippingLogging() {
+						st = append(st, "skip-logging")
+					}
+					if c.Ctx.IsAPIRequest() {
+						st = append(st, "api-request")
+					}
+					if _, ok := c.Ctx.Get("c02.mark"); ok {
+						st = append(st, "value")
+					}
+					c.Stale = strings.Join(st, "+")
+					c.Ctx.Set("c02.mark", c.Seq)
+				}
 			}
 			return c
 		}
@@ -454,7 +473,10 @@ func run(sc scenario) (body func(), check func(r *vrt.Result) []finding) {
 				add("no_context_in_reqmod:"+btag, "exchange %v: no context retrievable inside the request modifier", ky)
 				return
 			}
-			if prev, dup := ids[c.CtxID]; dup {
+			if c.Stale != "" {
+			add("context_not_fresh:"+tag+":"+c.Stale, "exchange %v: when the request modifier started the context already carried %s from an earlier exchange", ky, c.Stale)
+		}
+		if prev, dup := ids[c.CtxID]; dup {
 				add("context_id_reused:"+btag, "exchanges %v and %v share context id %s", prev, ky, c.CtxID)
 			}
 			ids[c.CtxID] = ky
